@@ -20,6 +20,42 @@ TEXT = {
    text='Seeded workloads over generated order-dependent transaction semantics; client calls are parked at the gchan hook so the buffer goroutine sees requests in seed-chosen order; the invoke/return history must linearize against the sequential pending-list model.',
    note='Trusts porcupine and the sequential model; the apply function returns a poisoned state next to every error so that misuse of an error result is visible.',
    ref='4/C19'),
+ 'C03': dict(
+   technique='deterministic simulation: 4-6 real engines with real gossip and codec under a seeded scheduler (parks at every select case, store write, strategy/driver call and message hand-off; seeded select pre-pass) with delay, reorder, duplication, replay, corruption, partitions, stalls, crash-restart and Byzantine equivocation',
+   text='Seeded search over network schedules and fault sequences of a multi-node system running the unmodified engine; agreement and contiguity of finalizations are checked at every finalize request of every correct node.',
+   note='Correct nodes run a harness consensus strategy, application and timers; the network, Byzantine behaviour and crashes are simulated; a panic of an engine goroutine kills the worker and is classified by the runner (counted as aborted for properties other than C09). Runs are sampled, not enumerated.', ref='4/C03'),
+ 'C09': dict(
+   technique='deterministic simulation: multi-node engine world (see C03) with crash = observation; worker exit status and silently dead component detection as oracles',
+   text='Seeded search over honest and faulty multi-node schedules; any panic of an engine goroutine, any silent exit of the state machine or mirror goroutine while the engine runs, and any failing tmengine.New is a violation. The many defects found on the unchanged tree are listed individually in known_findings.json (open) or fixed by fix: commits; the construction-options part (H-OPTS) and the single-node adversarial message part are added when present in harness.json.',
+   note='Correct nodes run a harness consensus strategy, application and timers; the network, Byzantine behaviour and crashes are simulated; a panic of an engine goroutine kills the worker and is classified by the runner (counted as aborted for properties other than C09). Runs are sampled, not enumerated.', ref='4/C09'),
+ 'C02': dict(
+   technique='deterministic simulation: multi-node engine world with crash-restart on the same stores; recording signer wrapper as monitor',
+   text='Monitor level: across all runs and restarts the set of distinct sign bytes presented to each correct validator key per (kind, height, round) must have at most one element. The state-machine-level part (save precedes release, adversarial strategy answers) is added by the state machine harness when present in harness.json.',
+   note='Correct nodes run a harness consensus strategy, application and timers; the network, Byzantine behaviour and crashes are simulated; a panic of an engine goroutine kills the worker and is classified by the runner (counted as aborted for properties other than C09). Runs are sampled, not enumerated.', ref='4/C02'),
+ 'C04': dict(
+   technique='deterministic simulation: multi-node engine world with crash-restart; shadow of every committed-header and mirror-store write',
+   text='After every store write of every correct node: a committed height never changes hash, no gaps, each header names the stored predecessor hash, voting position monotone and one above committing.',
+   note='Correct nodes run a harness consensus strategy, application and timers; the network, Byzantine behaviour and crashes are simulated; a panic of an engine goroutine kills the worker and is classified by the runner (counted as aborted for properties other than C09). Runs are sampled, not enumerated.', ref='4/C04'),
+ 'C11': dict(
+   technique='deterministic simulation: multi-node engine world; every view is observed right after its consumer received it',
+   text='Per consumer and height/round: versions strictly increase, proposals and votes only grow; checked on every view the state machine and the gossip strategy receive under seeded relative speeds of kernel, handlers and consumers.',
+   note='Correct nodes run a harness consensus strategy, application and timers; the network, Byzantine behaviour and crashes are simulated; a panic of an engine goroutine kills the worker and is classified by the runner (counted as aborted for properties other than C09). Runs are sampled, not enumerated.', ref='4/C11'),
+ 'C05': dict(
+   technique='deterministic simulation: multi-node engine world with frame corruption, replay and Byzantine-signed votes; independent crypto/ed25519 verification of every signature in views, round-store writes and gossip frames',
+   text='Oracle A (authenticity) as a monitor over everything correct nodes put into views, the round store and gossip. Oracle B (an all-invalid message is a no-op) is decided by the single-node adversarial harness when present in harness.json.',
+   note='Correct nodes run a harness consensus strategy, application and timers; the network, Byzantine behaviour and crashes are simulated; a panic of an engine goroutine kills the worker and is classified by the runner (counted as aborted for properties other than C09). Runs are sampled, not enumerated.', ref='4/C05'),
+ 'C06': dict(
+   technique='deterministic simulation: multi-node engine world with equivocating Byzantine validators; vote summaries recomputed independently in math/big for every observed view',
+   text='Every view crossing to the state machine or gossip has its VoteSummary recomputed from the admitted signer bitsets with each validator counted once; any difference is a violation.',
+   note='Correct nodes run a harness consensus strategy, application and timers; the network, Byzantine behaviour and crashes are simulated; a panic of an engine goroutine kills the worker and is classified by the runner (counted as aborted for properties other than C09). Runs are sampled, not enumerated.', ref='4/C06'),
+ 'C07': dict(
+   technique='deterministic simulation: multi-node engine world with a validator-rotating application and in-flight corruption; validator sets compared element-wise with what the committed chain prescribes',
+   text='The validator set in every view, strategy call and committed header of every correct node must equal the next-validator set of the header committed one height earlier (genesis at the initial height), and committed lists must hash to the hashes the block hash covers.',
+   note='Correct nodes run a harness consensus strategy, application and timers; the network, Byzantine behaviour and crashes are simulated; a panic of an engine goroutine kills the worker and is classified by the runner (counted as aborted for properties other than C09). Runs are sampled, not enumerated.', ref='4/C07'),
+ 'C01': dict(
+   technique='deterministic simulation: multi-node engine world; every commit event checked against an independently verified > 2/3 precommit certificate of the prescribed validator set',
+   text='Commit events (committed-header store writes, committing views, committed headers handed to the state machine, finalize requests) are checked with crypto/ed25519 and math/big against the validator set the chain prescribes. Byzantine power is < 1/3 in this harness; certificates forged by >= 2/3 foreign keys and replayed headers are exercised by the single-node adversarial harness when present in harness.json.',
+   note='Correct nodes run a harness consensus strategy, application and timers; the network, Byzantine behaviour and crashes are simulated; a panic of an engine goroutine kills the worker and is classified by the runner (counted as aborted for properties other than C09). Runs are sampled, not enumerated.', ref='4/C01'),
  'C12': dict(
    technique='deterministic simulation: real StandardRoundTimer on a fake clock, seeded statement-level interleaving of its goroutine with a caller issuing start/cancel/restart sequences',
    text='Part (b) of the property (production round timer): seeded search over caller scripts and over every interleaving point of the timer goroutine (selects with seeded pre-pass, yields between statements) on the synctest fake clock; oracle: no panic, cancelled never elapses, never early, every start returns, armed timers fire. Part (a) (state-machine timer discipline) is decided by the state-machine harness when present in harness.json.',
